@@ -5,3 +5,4 @@ import Props.C17
 import Props.C18
 import Props.C10
 import Props.C11
+import Props.C01
